@@ -150,6 +150,28 @@ func histCheck(prop, tier, level string) int {
 			secs = 300
 		}
 		runMicros(rep, specs, secs, false)
+		// E2 over the same scenarios: the shutdown request lands at every decision point of
+		// the overlapping operation (one deviation at any point: the other thread then runs
+		// as far as it can), and every pair of deviations at points on shared objects. This
+		// reaches "Exit between two steps of X" windows deterministically even where the
+		// E1 budget above runs out first.
+		runMicrosDelay(rep, specs, 30, 1, true)
+		d2 := 25
+		if tier == "thorough" {
+			d2 = 400
+		}
+		d2specs := specs
+		if tier != "thorough" {
+			// quick: two deviations only on the memory-backed channel (the disk-backed twin
+			// has the same windows plus backend I/O points) and not for the queued state
+			d2specs = nil
+			for _, s := range specs {
+				if s.MemQ == 10 && s.State != "queued" && len(s.Ops) == 2 && s.Ops[0] != "stats" && s.Ops[0] != "pause_ch" && s.Ops[0] != "disc1" {
+					d2specs = append(d2specs, s)
+				}
+			}
+		}
+		runMicrosDelay(rep, d2specs, d2, 2, false)
 	}
 	if prop == "C01" {
 		// E1: a delivery overlapping the consumer's disconnect (write failures)
